@@ -39,6 +39,12 @@ def cases(chk):
         {"accts": 3, "groups": [[1, 2, 3]], "script": [["send", 1, "u", 2, 0], ["send", 1, "g", 0, 3], ["send", 3, "g", 0, 1]], "faults": [[1, "corrupt"], [2, "dup"]], "restarts": [1], "seed": 4},
         {"accts": 4, "groups": [[1, 2, 3, 4], [2, 3]], "script": [["send", 2, "g", 1, 4], ["send", 1, "g", 0, 6], ["send", 3, "u", 4, 2], ["send", 4, "g", 0, 5]], "faults": [], "restarts": [2], "seed": 5},
     ]
+    # a party restarts right after its own group / 1:1 message was the last thing it wrote to its key store, then writes again
+    corpus += [
+        {"accts": 3, "groups": [[1, 2, 3]], "script": [["send", 1, "g", 0, 0], ["restart", 1], ["send", 1, "g", 0, 3]], "faults": [], "restarts": [], "seed": 6},
+        {"accts": 3, "groups": [[1, 2, 3]], "script": [["send", 1, "g", 0, 0], ["send", 1, "g", 0, 1], ["restart", 1], ["send", 1, "g", 0, 3], ["restart", 2], ["send", 2, "g", 0, 4]], "faults": [], "restarts": [], "seed": 7},
+        {"accts": 2, "groups": [], "script": [["send", 1, "u", 2, 0], ["restart", 1], ["send", 1, "u", 2, 3], ["restart", 2], ["send", 2, "u", 1, 4], ["restart", 2], ["send", 1, "u", 2, 5]], "faults": [], "restarts": [], "seed": 8},
+    ]
     for c in corpus:
         yield "script", c
     # group conversations with one damaged copy and the other recipients' receipts racing the retry request
@@ -67,6 +73,11 @@ def cases(chk):
                 script.append(["send", a, "u", b, r.randrange(70)])
         nf = r.choice([0, 0, 1, 2, 3])
         faults = [[r.randrange(len(script)), r.choice(["dup", "corrupt"])] for _i in range(nf)]
+        if r.random() < 0.35:
+            # a restart of the sender right after one of its messages (placed in the script: happens at the next quiescence)
+            i = r.randrange(len(script))
+            script.insert(i + 1, ["restart", script[i][1]])
+            faults = [f for f in faults if f[0] < i]        # faults are addressed by message index: keep those before the insertion
         restarts = [r.randint(1, na) for _i in range(r.choice([0, 0, 1, 2]))]
         yield "script", {"accts": na, "groups": groups, "script": script, "faults": faults, "restarts": restarts, "seed": r.randrange(1 << 30)}
 
@@ -226,9 +237,14 @@ def run_case(chk, stream, case):
             steps += 1
             enabled = d.ask("e2e enabled").split()
             choices = list(enabled)
-            if script:
+            if script and script[0][0] == "restart":
+                # a restart placed in the script: wait for quiescence, then restart that account, then go on with the script
+                if not enabled:
+                    restarts.insert(0, script.pop(0)[1])
+                    choices = ["restart"]
+            elif script:
                 choices += ["send"] * (1 + len(choices) // 2)
-            if restarts and not enabled:
+            if restarts and not enabled and "restart" not in choices:
                 choices.append("restart")
             if not choices:
                 break
@@ -307,7 +323,18 @@ def run_case(chk, stream, case):
         if diverged:
             # model and code have parted: finish the conversation on the real system alone (rest of the script, then any schedule to
             # quiescence) and let the property's clauses decide whether this is a concrete failing input
-            for _s, a, k, dst, tok in script:
+            for item in script:
+                if item[0] == "restart":
+                    try:
+                        w.srv.run(lambda acts: r.choice(acts), limit=5000)
+                    except Exception:
+                        pass
+                    w.clients[item[1]].restart()
+                    w.clients[item[1]].connect()
+                    w.srv.run()
+                    hist.append("restart %d" % item[1])
+                    continue
+                _s, a, k, dst, tok = item
                 mid = 100 + nsend
                 nsend += 1
                 to = w.clients[dst].jid if k == "u" else w.gjid[dst]
@@ -322,6 +349,7 @@ def run_case(chk, stream, case):
                 hist.append("… (no quiescence)")
         # ------------------------------------------------------------ the property's clauses on the real run (script fully drained)
         ctx = "accounts=%d groups=%s actions=%s" % (case["accts"], case["groups"], hist)
+        nbefore = len(fails)
         for mid, (a, k, dst, tok, canon) in sorted(w.sent.items()):
             intended = [dst] if k == "u" else [m for m in case["groups"][dst] if m != a]
             frm = w.clients[a].jid if k == "u" else w.gjid[dst]
@@ -343,7 +371,7 @@ def run_case(chk, stream, case):
                       ((k == "u" and x.getFrom() == w.clients[b].jid) or (k == "g" and x.getParticipant() == w.clients[b].jid))]
                 if not rc:
                     fails.append(oracle("C03:delivery-receipt-missing", "%s: the application of %d never got %d's delivery receipt for message %s" % (ctx, a, b, mid)))
-            if fails:
+            if len(fails) > nbefore:
                 return fails
         # unknown messages shown
         for b in sorted(w.clients):
